@@ -31,6 +31,7 @@ type CheckCfg struct {
 	Assumptions    []string `json:"assumptions"`
 	Bounds         map[string]string `json:"bounds"`
 	Workers        int      `json:"workers"`
+	EagerSSA       bool     `json:"eager_ssa"` // build all SSA before exploring (see load.go)
 }
 
 func loadChecks() (map[string]*CheckCfg, error) {
@@ -177,6 +178,7 @@ func cmdCheck(args []string) int {
 		return 2
 	}
 	defer ov.cleanup()
+	gEagerSSA = cfg.EagerSSA
 	ld, err := loadPackage(cfg.Pkg, ov)
 	if err != nil {
 		fmt.Println("ERROR: load:", err)
